@@ -69,27 +69,29 @@ func SamePrefix(a, b []any, n int) bool {
 
 // ---- lemmas about NTok (proved by induction: the recursive call is the hypothesis) ----------
 
-//@ func lemmaNTokPrefix
+//@ func LemmaNTokPrefix
 //@   lemma
 //@   props C01
 //@   requires 0 <= n && SamePrefix(a, b, n)
 //@   decreases n
 //@   ensures  NTok(a, n) == NTok(b, n)
-func lemmaNTokPrefix(a, b []any, n int) {
+
+func LemmaNTokPrefix(a, b []any, n int) {
 	if n > 0 {
-		lemmaNTokPrefix(a, b, n-1)
+		LemmaNTokPrefix(a, b, n-1)
 	}
 }
 
-//@ func lemmaNTokBounds
+//@ func LemmaNTokBounds
 //@   lemma
 //@   props C01
 //@   requires 0 <= n
 //@   decreases n
 //@   ensures  0 <= NTok(a, n) && NTok(a, n) <= n
-func lemmaNTokBounds(a []any, n int) {
+
+func LemmaNTokBounds(a []any, n int) {
 	if n > 0 {
-		lemmaNTokBounds(a, n-1)
+		LemmaNTokBounds(a, n-1)
 	}
 }
 
@@ -99,17 +101,18 @@ func IsConcat(c, a, b []any, lb int) bool {
 		verifspec.Forall(0, lb, func(i int) bool { return c[len(a)+i] == b[i] })
 }
 
-//@ func lemmaNTokConcat
+//@ func LemmaNTokConcat
 //@   lemma
 //@   props C01
 //@   requires IsConcat(c, a, b, lb)
 //@   decreases lb
 //@   ensures  NTok(c, len(a)+lb) == NTok(a, len(a)) + NTok(b, lb)
-func lemmaNTokConcat(c, a, b []any, lb int) {
+
+func LemmaNTokConcat(c, a, b []any, lb int) {
 	if lb > 0 {
-		lemmaNTokConcat(c, a, b, lb-1)
+		LemmaNTokConcat(c, a, b, lb-1)
 	} else {
-		lemmaNTokPrefix(c, a, len(a))
+		LemmaNTokPrefix(c, a, len(a))
 	}
 }
 
@@ -241,7 +244,7 @@ func PatNot(elems []any) bool {
 //@            result0[len(elems)-2] == any(expr.NOT(wrapLiteral(E(elems[len(elems)-1]), defaultField)))
 //@   ensures[shape]  result2 ==> ElemOK(result0[len(elems)-2]) && ElemsOK(result0)
 //@   ensures[tokens] result2 ==> Dropped(result1, nonTerminals, 1) && NTok(result0, len(result0)) == NTok(elems, len(elems))-1
-//@   lemma prefix before "return elems, drop(nonTerminals, 1), true": lemmaNTokPrefix(elems, old(elems), len(old(elems))-2); lemmaNTokBounds(old(elems), len(old(elems))-2)
+//@   lemma prefix before "return elems, drop(nonTerminals, 1), true": LemmaNTokPrefix(elems, old(elems), len(old(elems))-2); LemmaNTokBounds(old(elems), len(old(elems))-2)
 
 // PatSub: ( E )
 func PatSub(elems []any) bool {
@@ -411,7 +414,8 @@ func PrefixOf(r, nt []lex.Token) bool {
 //@ func Reduce
 //@   props C05 C06 C10 C11 C01
 //@   fuel 2 NTok=2
-//@   requires ElemsOK(elems) && len(nonTerminals) >= 1+NTok(elems, len(elems))
+//@   requires[elems-ok] ElemsOK(elems)
+//@   requires[tokens]   len(nonTerminals) >= 1+NTok(elems, len(elems))
 //@   ensures  !result2 ==> verifspec.Same(result0, elems) && verifspec.Same(result1, nonTerminals)
 //@   ensures[no-rule-left-out] !result2 ==> NoneBefore(12, elems)
 //@   ensures[built]  result2 ==> Built(elems, defaultField, result0)
